@@ -212,4 +212,39 @@ Section Iter.
       rewrite skipn_upd_nth_gt by lia. rewrite (F2 (S gi)) by lia. cbn [items].
       rewrite firstn_bremove by lia. reflexivity.
   Qed.
+
+  Theorem it_remove_valid (s : hset) gi bi p : valid s (Some (gi, bi, p)) ->
+    valid (fst (it_remove s (Some (gi, bi, p)))) (snd (it_remove s (Some (gi, bi, p)))).
+  Proof.
+    intros V. pose proof V as [t [b [Ht [Hb Hp]]]]. unfold HashModel.it_remove. cbn [fst snd].
+    set (f := fun t0 : table => tremove B b0 wf0 t0 (Z.of_nat bi) p).
+    set (s' := {| gens := upd_gen B (gens s) gi f; count := (count s - 1)%Z; capacity := capacity s |}).
+    assert (Hgi : (gi < length (gens s))%nat) by (apply nth_error_Some; congruence).
+    assert (Hbi : (bi < length (tbs t))%nat) by (apply nth_error_Some; congruence).
+    assert (Eg : gens s' = upd_nth gi (f t) (gens s)) by (unfold s'; simpl; unfold HashModel.upd_gen; rewrite Ht; reflexivity).
+    assert (Egb : getb B b0 wf0 t (Z.of_nat bi) = b).
+    { unfold HashModel.getb. rewrite Nat2Z.id. apply nth_error_nth. exact Hb. }
+    assert (Et : tbs (f t) = upd_nth bi (mkB (bremove p (items b)) (wasFull b) (bound b)) (tbs t)).
+    { unfold f, HashModel.tremove, HashModel.setb. simpl. rewrite Nat2Z.id, Egb. reflexivity. }
+    assert (F1 : nth_error (gens s') gi = Some (f t)) by (rewrite Eg; apply nth_error_upd_nth_same; auto).
+    assert (F2 : forall m, (gi < m)%nat -> skipn m (gens s') = skipn m (gens s)) by (intros; rewrite Eg; apply skipn_upd_nth_gt; auto).
+    assert (F2' : forall m, (gi <> m)%nat -> nth_error (gens s') m = nth_error (gens s) m) by (intros; rewrite Eg; apply nth_error_upd_nth_other; auto).
+    assert (F3 : forall m, (bi < m)%nat -> skipn m (tbs (f t)) = skipn m (tbs t)) by (intros; rewrite Et; apply skipn_upd_nth_gt; auto).
+    assert (F3' : forall m, (bi <> m)%nat -> nth_error (tbs (f t)) m = nth_error (tbs t) m) by (intros; rewrite Et; apply nth_error_upd_nth_other; auto).
+    destruct p as [|p].
+    - assert (En : it_next s' (Some (gi, bi, 0%nat)) = it_next s (Some (gi, bi, 0%nat))).
+      { unfold HashModel.it_next. rewrite F1, Ht. rewrite (F3 (S bi)) by lia. rewrite (F2 (S gi)) by lia. reflexivity. }
+      rewrite En. destruct (rest_step s gi bi 0 V) as [x [_ [V' _]]]. revert V'.
+      unfold HashModel.it_next. rewrite Ht.
+      pose proof (scan_spec (skipn (S bi) (tbs t)) (S bi)) as Hs.
+      destruct (scan (skipn (S bi) (tbs t)) (S bi)) as [[bi' p']|].
+      + destruct Hs as [Hle _]. intros [t1 [b1 [A1 [A2 A3]]]]. rewrite Ht in A1. inversion A1; subst t1.
+        exists (f t), b1. split; auto. split; auto. rewrite (F3' bi') by lia. exact A2.
+      + destruct (first_in_gens (skipn (S gi) (gens s)) (S gi)) as [[[gi' bi'] p']|] eqn:Ef; [|auto].
+        apply first_in_gens_ge in Ef. intros [t1 [b1 [A1 [A2 A3]]]]. exists t1, b1. rewrite (F2' gi') by lia. auto.
+    - unfold HashModel.it_next. exists (f t), (mkB (bremove (S p) (items b)) (wasFull b) (bound b)).
+      split; auto. split; [rewrite Et; apply nth_error_upd_nth_same; auto|]. cbn [items].
+      destruct (nth_error (items b) (S p)) as [x|] eqn:Ex; [|apply nth_error_None in Ex; lia].
+      pose proof (bremove_length _ _ _ Ex). lia.
+  Qed.
 End Iter.
